@@ -253,12 +253,12 @@ Definition ranked (l : lock) : Prop := rank l <> None.
 
 (* ---------- known violation sites of the pinned tree (each confirmed by reading the source) ---------- *)
 Definition known_sites : list string :=
-  [ (* network.rs: the peers write guard lives to the end of Network::handle_handshake_challenge /
-       handle_handshake_response; under it Peer::handle_handshake_{challenge,response} read the
-       configuration, and Network::request_blockchain_from_peer reads configuration and blockchain *)
+  [ (* network.rs: the peers write guard of Network::handle_handshake_challenge / handle_handshake_response
+       is alive while Peer::handle_handshake_{challenge,response} read the configuration.
+       (the third site of this group, handle_handshake_response#c13 -- request_blockchain_from_peer under
+       the peers guard -- was repaired in /repo by fix 49f9179 and is no longer listed) *)
     "saito_core::network::Network::handle_handshake_challenge#c3";
     "saito_core::network::Network::handle_handshake_response#c3";
-    "saito_core::network::Network::handle_handshake_response#c13";
     (* saito-rust main.rs: three `configs_clone.read().await...` temporaries in the argument list of one
        Context::new(..) statement: the 2nd and 3rd read are taken while the earlier read guards are alive *)
     "saito_rust::main::run_utxo_to_issuance_converter#2";
